@@ -1328,7 +1328,34 @@ func (p *Parser) expression() (Expr, *ParseError) {
 // It handles shift/arithmetic operators but stops at > and >= tokens
 // to avoid consuming the template-closing >.
 func (p *Parser) templateArgExpr() (Expr, *ParseError) {
-	return p.templateShift()
+	return p.templateBitwise(0)
+}
+
+// templateBitwise parses | ^ & expressions inside template args (array<u32, N & 3u>).
+// Level 0 is |, 1 is ^, 2 is &; below that come << and the additive operators.
+// Relational operators stay excluded: < and > would be taken for template brackets.
+func (p *Parser) templateBitwise(level int) (Expr, *ParseError) {
+	ops := [...]TokenKind{TokenPipe, TokenCaret, TokenAmpersand}
+	if level == len(ops) {
+		return p.templateShift()
+	}
+	left, err := p.templateBitwise(level + 1)
+	if err != nil {
+		return nil, err
+	}
+	for p.check(ops[level]) {
+		op := p.advance()
+		right, err := p.templateBitwise(level + 1)
+		if err != nil {
+			return nil, err
+		}
+		left = &BinaryExpr{
+			Left:  left,
+			Op:    op.Kind,
+			Right: right,
+		}
+	}
+	return left, nil
 }
 
 // templateShift parses << expressions inside template args (>> would be template close).
